@@ -331,8 +331,10 @@ def canon_trace(cmd_lines, which):
         if not m:
             continue
         name, rest = m.group(1), m.group(2).split()
-        if which not in name:
+        if which not in name or not rest:
             continue
+        if len(rest) < {'CreateOrUpdateFile': 5, 'CreateSymlink': 4}.get(rest[0], 2 if rest[0].startswith(('Create', 'Delete', 'GetFile')) and rest[0] != 'CreateRootAncestors' else 1):
+            continue                     # a truncated log line (the log itself hit a file-size limit)
         allc.append(rest[0])
         k = rest[0]
         if k == 'CreateOrUpdateFile':
@@ -433,7 +435,7 @@ def make_sandbox(sc, base):
     return root, src_abs, dest_abs
 
 
-def run_scenario(sc, binary, jbin, base, fake_ssh=None, timeout=60, extra_env=None, keep=False):
+def run_scenario(sc, binary, jbin, base, fake_ssh=None, timeout=60, extra_env=None, keep=False, ulimit_f=None):
     """Builds the sandbox under `base`, asks the model, runs the CLI, returns an Outcome with
     .impl (observation dict), .model (parsed model answer), .mismatch (list of strings)."""
     o = Outcome()
@@ -448,6 +450,7 @@ def run_scenario(sc, binary, jbin, base, fake_ssh=None, timeout=60, extra_env=No
             e2e.build_tree(dest_abs, sc.dest)
         before = {'src': e2e.snapshot(src_abs), 'dest': e2e.snapshot(dest_abs), 'outside': e2e.snapshot(os.path.join(root, 'outside'))}
         orders = (bfs_order(src_abs), bfs_order(dest_abs))
+        o.root, o.src_abs, o.dest_abs, o.orders = root, src_abs, dest_abs, orders
         mline = model_line(sc, src_abs, dest_abs, orders)
         o.model_line = mline
         o.model = parse_model(vlib.judge(jbin, [mline])[0])
@@ -460,7 +463,7 @@ def run_scenario(sc, binary, jbin, base, fake_ssh=None, timeout=60, extra_env=No
         if extra_env:
             env.update(extra_env)
         args = cli_args(sc, src_abs, dest_abs)
-        r = e2e.run_cli(binary, args, env=env, timeout=timeout, fake_ssh=fake_ssh if 'R' in sc.placement else None)
+        r = e2e.run_cli(binary, args, env=env, timeout=timeout, fake_ssh=fake_ssh if 'R' in sc.placement else None, ulimit_f=ulimit_f)
         text = r['stdout'] + r['stderr']
         after = {'src': e2e.snapshot(src_abs), 'dest': e2e.snapshot(dest_abs), 'outside': e2e.snapshot(os.path.join(root, 'outside'))}
         try:
@@ -517,20 +520,9 @@ def run_scenario(sc, binary, jbin, base, fake_ssh=None, timeout=60, extra_env=No
 ANSI_PROMPT = re.compile(r'What do\?')
 
 
-def compare(sc, o):
-    """Correspondence between the implementation's observation and the model's prediction."""
+def diff_dest(md, idest):
+    """Model file system (parse_model 'fs') against a snapshot of the real destination."""
     mm = []
-    m, im = o.model, o.impl
-    if im['timed_out']:
-        return ['implementation timed out']
-    want_exit = 0 if m['ok'] else 12
-    if m['panic']:
-        mm.append('model predicts a panic')
-    if im['exit'] != want_exit:
-        mm.append('exit %s, model %s' % (im['exit'], want_exit))
-    # destination tree
-    md = m['fs']
-    idest = im['after']['dest']
     for p in sorted(set(md) | set(idest)):
         a, b = idest.get(p), md.get(p)
         if a is None or b is None or a[0] != b[0]:
@@ -543,6 +535,22 @@ def compare(sc, o):
                 mm.append('dest file %r mtime impl %s model %s' % (p, a[3], b[3]))
         elif a[0] == 'link' and a[1] != b[1]:
             mm.append('dest link %r text impl %r model %r' % (p, a[1], b[1]))
+    return mm
+
+
+def compare(sc, o):
+    """Correspondence between the implementation's observation and the model's prediction."""
+    mm = []
+    m, im = o.model, o.impl
+    if im['timed_out']:
+        return ['implementation timed out']
+    want_exit = 0 if m['ok'] else 12
+    if m['panic']:
+        mm.append('model predicts a panic')
+    if im['exit'] != want_exit:
+        mm.append('exit %s, model %s' % (im['exit'], want_exit))
+    # destination tree
+    mm += diff_dest(m['fs'], im['after']['dest'])
     # traces: exact sequences (the model is given the real per-side listing orders)
     mt = canon_model_trace(m['dest'])
     if mt != im['dest_trace']:
